@@ -1,7 +1,8 @@
 (* C01 and C04 for object graphs.  For EVERY graph of structs whose fields are integers of any
-   Go kind, booleans, strings, float64s, byte slices, timestamps, pointers to structs and typed
-   lists of any of these (lists of lists, lists of pointers included) - any number of objects,
-   any depth, with arbitrary sharing of objects and cycles - what the encoder model
+   Go kind, booleans, strings, float64s, byte slices, timestamps, pointers to structs, typed
+   lists of any of these (lists of lists, lists of pointers included) and maps with string or
+   integer keys and any of these as values - any number of objects, any depth, with arbitrary
+   sharing of objects and cycles - what the encoder model
    writes, the decoder model reads back as the same graph: every object becomes one heap cell
    holding the same values under the same field names (a float64 as the same number, a
    timestamp to the millisecond), and every pointer becomes the index of the cell of the object
@@ -32,8 +33,9 @@ Theorem C01_graph_roundtrip : forall nm F te tm ty_of v t st st',
          R_rf (readers_at te tm f) t dst (bs ++ rest) = Ok (d, rest, dst') /\
          (* as a value on its own (top level, stream) *)
          (forall a ty fs, v = VStruct a ty fs -> R_rd (readers_at te tm f) dst (bs ++ rest) = Ok (d, rest, dst')) /\
-         (* as an element of a list whose element type is t *)
-         (t <> TIface -> elem_step te (readers_at te tm f) t dst (bs ++ rest) = Ok (d, rest, dst'))).
+         (* as a list element or map key/value of static type t: ReadData, then SetValue into t *)
+         (t <> TIface -> elem_pos_ok nm v ->
+            exists d0, R_rd (readers_at te tm f) dst (bs ++ rest) = Ok (d0, rest, dst') /\ forall heap, set_value te heap t d0 = Ok d)).
 Proof. intros nm F te tm ty_of v. exact (graph_roundtrip nm F te tm ty_of v). Qed.
 Print Assumptions C01_graph_roundtrip.
 
@@ -138,6 +140,36 @@ Proof.
       eapply (sg_slice ynm yF yte ytm (fun _ => yL) yty _ (TInt KInt32) yltn); try reflexivity; try discriminate; try (cbn; lia).
       * repeat constructor; unfold valid_rune; lia.
       * repeat constructor; unfold in_kind; cbn; lia.
+      * repeat constructor.
+  - eexists. split; [vm_compute; reflexivity|]. split; [split; vm_compute; discriminate|].
+    eexists. split; vm_compute; reflexivity.
+Qed.
+
+(* ... and with a map field: &M{Tags: map[string]int32{"a": 1, "b": 2}} (an unnamed map type: untyped on the wire) *)
+Definition zM : name := [77].
+Definition znm : namemap := [(zM, zM)].
+Definition zgfs : list (name * gtype) := [([84], TMap TStr (TInt KInt32))].
+Definition zte : tenv := [(zM, zgfs)].
+Definition ztm : typmap := [(zM, TStruct zM)].
+Definition zF (c : name) : list name := [[116]].
+Definition zv : gval := VStruct 1 zM [([84], VMap 0 [] [(VStr [97], VInt KInt32 1); (VStr [98], VInt KInt32 2)])].
+Example C01_graph_map_nonvacuous :
+  sgv znm zF zte ztm (fun _ => zM) (TPtr (TStruct zM)) zv /\
+  exists st', write_data zv (estate0 znm) = Ok st' /\ small st' /\
+    exists dst', decode zte ztm (ebytes st') = Ok (DPtr 0 zM, [], dst') /\
+      nth_error (dheap dst') 0 = Some (RObj zM (Some [([84], DMapV TStr (TInt KInt32) [(DStr [97], DInt KInt32 1); (DStr [98], DInt KInt32 2)])])).
+Proof.
+  split.
+  - eapply (sg_struct znm zF zte ztm (fun _ => zM) 1 zM _ zM zgfs); try reflexivity; try lia.
+    + split; [repeat constructor; cbn; intuition discriminate|]. intros n t [H|[]]; inversion H; subst; reflexivity.
+    + repeat constructor; unfold valid_rune; lia.
+    + repeat constructor; unfold valid_rune; lia.
+    + cbn; lia.
+    + constructor; [|constructor]. cbn [snd].
+      eapply (sg_map znm zF zte ztm (fun _ => zM) [] _ TStr (TInt KInt32)); try discriminate.
+      * repeat constructor.
+      * repeat constructor; cbn; intuition discriminate.
+      * repeat constructor; try (unfold valid_rune; lia); try (unfold in_kind; cbn; lia).
   - eexists. split; [vm_compute; reflexivity|]. split; [split; vm_compute; discriminate|].
     eexists. split; vm_compute; reflexivity.
 Qed.
